@@ -734,6 +734,42 @@ def fd_weights_exact_cases(fb):
     return cnt, bad
 
 
+def fd_weights_history_cases(fb):
+    """one process, many calls: node sets that nearly coincide (tiny spacings, tiny shifts, translated stencils, the same
+    nodes with another x0 or order, the same call twice) -- every answer against the exact rational weights of the nodes
+    actually passed.  Returns (count, failing cases)."""
+    import numpy as np
+    from fractions import Fraction
+    seqs = []
+    for h1, h2 in [(1e-13, 2e-13), (1e-13, 1.5e-13), (3e-7, 3.0000004e-7), (1e-3, 1.0000001e-3)]:
+        seqs.append([(np.arange(-2, 3) * h1, 0.0), (np.arange(-2, 3) * h2, 0.0), (np.arange(-2, 3) * h1, 0.0)])
+    base = np.array([-1.3, -0.4, 0.1, 0.7, 1.9, 2.2]) * 1e-6
+    seqs.append([(base, 0.0), (base + np.array([0, 1, -1, 2, 0, 1]) * 1e-13, 0.0), (base, 3e-13), (base, 0.0)])
+    u = np.linspace(-1.0, 1.0, 7)
+    seqs.append([(u, 0.25), (u + 5.0, 5.25), (u + 5.0, 5.25 + 1e-9), (u * (1 + 1e-9), 0.25), (u[::-1], 0.25), (u, 0.25)])
+    seqs.append([(np.array([0.0, 1.0, 3.0, 4.5]), 1.0), (np.array([0.0, 1.0, 3.0, 4.5 + 1e-10]), 1.0), (np.array([0.0, 1.0, 3.0, 4.5]), 1.0 + 1e-11)])
+    cnt, bad = 0, []
+    for si, seq in enumerate(seqs):
+        for n in (1, 2, 3):
+            for ci, (nodes, x0) in enumerate(seq):
+                m = len(nodes)
+                ref = lagrange_weights_exact(nodes, x0, n)
+                W = np.asarray(fb.fd_weights_all(np.array(nodes, copy=True), x0, n))
+                r = np.asarray(fb.fd_weights(np.array(nodes, copy=True), x0, n))
+                cnt += 1
+                ok = W.shape == (n + 1, m) and r.shape == (m,)
+                if ok:
+                    for k in range(n + 1):
+                        scale = max(abs(v) for v in ref[k]) or Fraction(1)
+                        ok = ok and all(abs(Fraction(float(W[k, v])) - ref[k][v]) <= Fraction(1e-8) * scale for v in range(m))
+                    scale = max(abs(v) for v in ref[n]) or Fraction(1)
+                    ok = ok and all(abs(Fraction(float(r[v])) - ref[n][v]) <= Fraction(1e-8) * scale for v in range(m))
+                if not ok:
+                    bad.append(dict(sequence=si, call=ci, nodes=[float(v) for v in nodes], x0=float(x0), n=n,
+                                    row_n=np.asarray(r).ravel().tolist()[:6], exact_row_n=[float(v) for v in ref[n]][:6]))
+    return cnt, bad
+
+
 def taylor_cases(fb):
     """C17 on concrete functions with known series (entire, pole or branch point at distance >= 1.6): with the default radius and
     n <= 20 the run is neither degenerate nor failed, at least n+1 coefficients come back, and every coefficient is within
